@@ -102,6 +102,9 @@ void* wide_list[VX_WIDE_N];
 void* vx_sorted_ptr(size_t i) { return i < VX_WIDE_N ? wide_list[i] : NULL; }
 void h_retire_data_wide(void) {
     size_t n, k; __CPROVER_assume(n >= 1 && n <= VX_WIDE_N && k < n);
+#ifdef VX_WIDE_FIX
+    n = VX_WIDE_FIX; __CPROVER_assume(k < n);        /* one group per list length: the search's control flow is then concrete, the contents stay symbolic */
+#endif
     for (unsigned i = 0; i < VX_WIDE_N; ++i) { wide_list[i] = vx_nondet_ptr(); if (i > 0) __CPROVER_assume(wide_list[i - 1] <= wide_list[i]); }   /* scan() sorts the list before the search */
     vx_bool guarded = vx_nondet_int() & 1;
     void* p = vx_nondet_ptr();
